@@ -80,6 +80,25 @@ def issue(r, op):
                     if wid is None:
                         entry['result'] = ('skipped', 'no target')
                         return
+                    if op.get('via', 'rest') == 'rest':
+                        from mistralsim import rest
+                        body = {'state': {'pause': 'PAUSED',
+                                          'resume': 'RUNNING'}.get(
+                                              kind, op.get('state'))}
+                        if kind == 'stop' and op.get('message'):
+                            body['state_info'] = op['message']
+                        if kind == 'resume' and op.get('env'):
+                            body['params'] = {'env': op['env']}
+                        code, data = rest.call(
+                            'PUT', '/v2/executions/%s' % wid, body,
+                            world.user_ctx(project,
+                                           admin=op.get('admin', False)))
+                        entry['http'] = code
+                        if code == 200:
+                            entry['result'] = ('ok', data.get('state'))
+                        else:
+                            entry['result'] = ('http', code, str(data)[:300])
+                        return
                     _ctx()
                     if kind == 'pause':
                         res = eng.pause_workflow(wid)
@@ -98,6 +117,24 @@ def issue(r, op):
                         entry['result'] = ('skipped', 'no target')
                         return
                     entry['state_before'] = snap['task'][tid]['state']
+                    if op.get('via', 'rest') == 'rest':
+                        from mistralsim import rest
+                        body = {'state': 'SKIPPED' if kind == 'skip'
+                                else 'RUNNING'}
+                        if kind == 'rerun':
+                            body['reset'] = bool(op.get('reset', True))
+                        if op.get('env'):
+                            body['env'] = json.dumps(op['env'])
+                        code, data = rest.call(
+                            'PUT', '/v2/tasks/%s' % tid, body,
+                            world.user_ctx(project,
+                                           admin=op.get('admin', False)))
+                        entry['http'] = code
+                        if code == 200:
+                            entry['result'] = ('ok', data.get('state'))
+                        else:
+                            entry['result'] = ('http', code, str(data)[:300])
+                        return
                     _ctx()
                     res = eng.rerun_workflow(tid, reset=op.get('reset', True),
                                              skip=(kind == 'skip'),
